@@ -20,7 +20,7 @@ def en_atoms(rich=True):
     return out
 
 
-def ja_atoms(small=False):
+def ja_atoms(small=False, odd_names=False):
     out = []
     mods = ['nm', 'adn', 'X1'] if small else ['nm', 'adn', 'adv', 'X1']
     for mod in mods:
@@ -31,6 +31,10 @@ def ja_atoms(small=False):
         for mod in ['nm', 'X1']:
             out.append(Atom('NP', TernaryFeature(('case', case), ('mod', mod), ('fin', 'f'))))
     out.append(Atom('*END*'))
+    if odd_names:
+        # same values slot by slot as S[mod=nm,form=base,fin=f] / NP[case=ga,mod=nm,fin=f], different feature names
+        out.append(Atom('S', TernaryFeature(('case', 'nm'), ('mod', 'base'), ('fin', 'f'))))
+        out.append(Atom('NP', TernaryFeature(('mod', 'ga'), ('case', 'nm'), ('fin', 'f'))))
     return out
 
 
